@@ -26,6 +26,8 @@ func runC11(c *Ctx, r *Report) {
 	c11R6(c, r, "C11.R6")
 	c11TryAgain(c, r, "C11.R7")
 	c11Defaults(c, r, "C11.R8")
+	c11CountFailure(c, r, "C11.R10")
+	c11ActiveAddress(c, r, "C11.R11")
 	// an upstream at its connection limit is not given another connection: every policy returns only upstreams
 	// for which available() (health AND limits) holds - the policy tables of C10 with full pool states
 	tmp := newReport("tmp")
@@ -148,6 +150,8 @@ func c11Handle(c *Ctx, r *Report, rule string) {
 		switch {
 		case callee == "fmt.Errorf":
 			return SV{K: "ref", Known: true, Desc: "errNoUpstreams"}, true
+		case callee == "modules/l4proxy.(*Handler).proxy":
+			return symOpaque("relayed"), true // the relay itself is decided by C03.R1-R3
 		case callee == "time.Now", strings.HasPrefix(callee, "invoke context.Context.Value"):
 			return symOpaque(shortCallee(callee)), true
 		}
